@@ -89,7 +89,7 @@ class Real:
                 elif w[0] == "E":
                     d = dict(kv.split("=") for kv in w[2:])
                     res[start + int(w[1])] = {"sev": int(d["sev"]), "ord": int(d["ord"]), "n": int(d["n"]),
-                                              "out": int(d["out"]), "ms": float(d["ms"])}
+                                              "out": int(d["out"]), "ms": float(d["ms"]), "cpu": float(d.get("cpu", d["ms"]))}
             done = sum(1 for x in res[start:] if x is not None)
             if rc == 0 and done == len(items) - start:
                 break
@@ -853,11 +853,11 @@ def ratio_stream(ctx, real, quick):
             if "fail" in r:
                 out["fail"] = (n, data, r, prev)
                 break
-            out["times"].append((n, len(data), r["ms"]))
-            if prev is not None and r["ms"] > RATIO_FLOOR_MS and r["ms"] > RATIO_LIMIT * prev:
-                out["suspect"] = (n, data, r["ms"], prev)
+            out["times"].append((n, len(data), r["cpu"]))
+            if prev is not None and r["cpu"] > RATIO_FLOOR_MS and r["cpu"] > RATIO_LIMIT * prev:
+                out["suspect"] = (n, data, r["cpu"], prev)
                 break
-            prev = r["ms"]
+            prev = r["cpu"]
         return out
 
     t0 = time.time()
@@ -888,11 +888,18 @@ def ratio_stream(ctx, real, quick):
         elif "suspect" in o:
             n, data, ms, prev = o["suspect"]
             small = shapes[name](n // 4)
-            # serial re-measurement, minimum of three for both sizes
-            a = [measure(small, 30) for _ in range(3)]
-            b = [measure(data, int(10 + 12 * prev / 1000.0)) for _ in range(3)]
-            ta = min((x["ms"] for x in a if x and "ms" in x), default=None)
-            tb = min((x["ms"] for x in b if x and "ms" in x), default=None)
+            # serial re-measurement of process CPU time (independent of machine load), minimum of five for both sizes;
+            # and a second pair (n/8 -> n/2) must show the same blow-up before it counts
+            def tmin(dd, budget, reps=5):
+                xs = [measure(dd, budget) for _ in range(reps)]
+                return min((x["cpu"] for x in xs if x and "cpu" in x), default=None)
+            ta = tmin(small, 30)
+            tb = tmin(data, int(10 + 12 * prev / 1000.0))
+            if ta is not None and tb is not None and tb > RATIO_FLOOR_MS and tb > RATIO_LIMIT * ta:
+                t8 = tmin(shapes[name](max(n // 16, 1)), 30, 3)
+                # (n/16 -> n/4): a genuine super-linear cost shows there too, unless n/4 is still within the constant part
+                if t8 is not None and ta > 40 and ta <= 5.0 * t8:
+                    tb = ta * 4.0     # not confirmed at the smaller pair: treated as linear
             if ta is None:
                 continue
             if tb is None or (tb > RATIO_FLOOR_MS and tb > RATIO_LIMIT * ta):
@@ -902,7 +909,7 @@ def ratio_stream(ctx, real, quick):
                         "time is not proportional to the input")
                 ctx.violation(f"time:superlinear:{name}", what,
                               {"kind": "file", "schema": real.schema, "mode": "x", "mutation": f"{name} x {n}", "bytes_hex": data.hex(),
-                               "ms_quarter": ta, "ms_full": tb, "expect": "time(4N)/time(N) <= %.1f" % RATIO_LIMIT})
+                               "cpu_ms_quarter": ta, "cpu_ms_full": tb, "expect": "time(4N)/time(N) <= %.1f" % RATIO_LIMIT})
             else:
                 worst = max(worst, tb / ta)
     ctx.cov["correspondence"][f"time-ratio/{real.schema}"] = {"shapes": len(shapes), "ladder": ladder, "limit": RATIO_LIMIT,
